@@ -85,7 +85,7 @@ def run(out: common.Outcome, explore: int = 0) -> None:
             legA.append((m, doc, recs))
     # ---- leg 3: end to end, whole-file and one-JSON-per-line, with invalid records
     ev_fields = ["job_name", "job_id", "event_type", "event_id", "application_name", "parent_event_id", "child_event_ids"]
-    legC = []
+    legC, skip_bad = [], []
     gen.NUMERIC_MODE = True
     gen.FRIENDLY = True
     with common.Scratch("c13") as tmp:
@@ -107,6 +107,19 @@ def run(out: common.Outcome, explore: int = 0) -> None:
                 evs = [{k: getattr(e, k) for k in ev_fields} for e in events]
             except Exception as e:  # noqa
                 evs = [{"error": type(e).__name__}]
+            # the skipping clause, stated directly: the events are exactly the records that validate, in order
+            from tel2puml.otel_to_pv.otel_to_pv_types import OTelEvent
+            want = []
+            comp = field_mapping_to_compiled_jq(copy.deepcopy(m))
+            for dd in docs:
+                for rec in generate_records_from_compiled_jq(json.loads(json.dumps(dd)), comp):
+                    try:
+                        ev = OTelEvent(**rec)
+                        want.append({k: getattr(ev, k) for k in ev_fields})
+                    except Exception:  # noqa
+                        pass
+            if evs != want:
+                skip_bad.append(dict(mapping=m, documents=docs, per_line=per_line, events=evs, expected=want))
             legC.append((m, docs, evs, per_line))
     gen.NUMERIC_MODE = False
     gen.FRIENDLY = False
@@ -179,6 +192,8 @@ def run(out: common.Outcome, explore: int = 0) -> None:
                            "implementation_records": recs,
                            "note": "input is `regular` (no false-valued priority alternative, attribute arrays with string keys and "
                                    "followable value paths): the documented and the coded semantics provably agree there"})
+    for b in skip_bad[:2]:
+        out.violation(dict(kind="events differ from 'the records that form a valid span, in order' (a skipped record affected the others)", **b))
     for key, n, what in ((KEY_FALSE, n_false, "a priority list falls through a `false` value (jq `//`)"),
                          (KEY_KV, n_kv, "a key/value lookup yields null because ANOTHER element of the attribute array has a non-string key or lacks the value path")):
         if n:
